@@ -84,15 +84,15 @@ Definition add_service (c : coll) (voidn : nat) (r : reg) : coll * nat * option 
   | inr e => (c, voidn', Some e)
   end.
 
+Fixpoint rm (t : ty) (k : key) (l : coll) : coll :=
+  match l with
+  | [] => []
+  | d :: l' => if in_services d && (ds_ty d =? t) && key_eqb (ds_key d) k then l' else d :: rm t k l'
+  end.
 Definition remove_service (c : coll) (t : ty) (k : key) : coll :=
   match find_service c t k with
   | None => c
-  | Some _ =>
-      (fix rm (l : coll) : coll :=
-         match l with
-         | [] => []
-         | d :: l' => if in_services d && (ds_ty d =? t) && key_eqb (ds_key d) k then l' else d :: rm l'
-         end) c
+  | Some _ => rm t k c
   end.
 
 (* modules: the error is wrapped once per enclosing named module, outermost first *)
